@@ -223,6 +223,7 @@ func (d *Pegnetd) NullifyMintedTokens(ctx context.Context, tx *sql.Tx, height ui
 		fLog.WithFields(log.Fields{
 			"err": err,
 		}).Info("zeroing burn | balances retrieval failed")
+		return err // without the balances nothing would be burned: retry the block
 	}
 
 	for _, tokenSupply := range MintTotalSupplyMap {
